@@ -338,7 +338,7 @@ func ruleC07R0(c *Ctx) {
 			}
 		})
 	}
-	c.floor("C07.R0", "builtin calls scanned", nBuiltins, 500)
+	c.floor("C07.R0", "builtin calls scanned", nBuiltins, 300)
 	c.ok("C07.R0", nil, "no recover() in the module", 0, "every reachable panic terminates the process: index safety (R1), explicit panics (R2) and label sanitising (R3) are necessary for the property")
 }
 
